@@ -21,7 +21,9 @@ MODELS = list(cp.POOL)
 
 
 def _vals(rng):
-    return {k: rng.randint(1, 9) for k in "abcde"}
+    v = {k: rng.randint(1, 9) for k in "abcde"}
+    v["ws"] = rng.randint(0, 1)  # whitespace that matters (see cachepool.render)
+    return v
 
 
 class World:
@@ -29,7 +31,8 @@ class World:
 
     # folder layouts: (model folder, library folder) relative to the sandbox.  1: siblings whose names share a string
     # prefix; 2: the library lies inside the model folder (its files are then found by both walks)
-    LAYOUTS = [("m", "lib"), ("m", "m_lib"), ("m", os.path.join("m", "libs"))]
+    # 3: names with blanks and glob metacharacters
+    LAYOUTS = [("m", "lib"), ("m", "m_lib"), ("m", os.path.join("m", "libs")), ("run [1]", "lib [v2]*")]
 
     def __init__(self, sandbox, clock, name, vals_seed, symlink_sub=None, layout=0):
         self.sandbox = sandbox
@@ -89,7 +92,8 @@ class World:
         p = self.path(key)
         with fsim.REAL_OPEN(p, "w") as f:
             f.write(cp.render(self.template(key), vals, extra))
-        t = (self.clock.now_us if mtime_us is None else mtime_us) * 1000
+        # file times come from the file system's clock, which may be off from the process's (clock.fs_skew_us)
+        t = (self.clock.now_us + getattr(self.clock, "fs_skew_us", 0) if mtime_us is None else mtime_us) * 1000
         os.utime(p, ns=(t, t))
 
     def cache_mtime_us(self):
@@ -101,7 +105,7 @@ class World:
     def edit_time_us(self):
         """Every edit is strictly later than the cache (the property's precondition), also when
         the clock has jumped backwards."""
-        t = self.clock.now_us
+        t = self.clock.now_us + getattr(self.clock, "fs_skew_us", 0)
         cm = self.cache_mtime_us()
         if cm is not None and t <= cm + 1000:
             t = cm + 1000
@@ -200,9 +204,20 @@ class Engine:
         except Exception as e:
             return None, "%s: %s" % (type(e).__name__, str(e)[:120])
 
-    def judge(self, world, optset, label, got, err, shape, what):
-        """Compare one transfer_model outcome with the reference.  Returns a violation tuple or None."""
+    def judge(self, world, optset, label, got, err, shape, what, defer=None):
+        """Compare one transfer_model outcome with the reference.  Returns a violation tuple or None.
+        With `defer` (a list) the reference is built now - from the sources as they are now - but the model that was
+        returned is not looked at before the caller runs the stored closure: a caller may keep a model and use it
+        later, after other calls, edits and rebuilds."""
         ref, ref_err = self.reference(world, optset, label)
+        if defer is not None and ref is not None and err is None:
+            shape = list(shape) + ["used_later"]
+            defer.append(lambda: self._judge(ref, ref_err, got, err, shape, what + ", model used only at the end"))
+            return None
+        return self._judge(ref, ref_err, got, err, shape, what)
+
+    @staticmethod
+    def _judge(ref, ref_err, got, err, shape, what):
         if ref is None:
             if err is None:
                 # the cached call returned something although a fresh compile of the current sources fails
@@ -254,9 +269,15 @@ class Engine:
             if getattr(rng, "run_index", 0) % 2 == 0:
                 # an earlier build for other options left its libraries in the folder; sets 2, 4, 5, 7 change the
                 # functions' signatures, which makes a mix-up visible whatever the model
-                prior = rng.choice([i for i in ([2, 4, 5, 7] if rng.random() < 0.7 else range(len(cp.OPTION_SETS))) if i != optset])
+                prior = self._other_optset(rng, name, optset)
                 ops += [{"op": "options", "set": prior}, {"op": "transfer"}, {"op": "restart"}, {"op": "options", "set": optset}]
             ops += [{"op": "transfer"}, {"op": "restart"}, {"op": "transfer"}, {"op": "restart"}, {"op": "transfer"}]
+            if getattr(rng, "run_index", 0) % 2 == 1:
+                # a caller loads the model and keeps it; then the libraries are rebuilt for other options (by this or any
+                # other process); only then does the first caller use its model
+                other = self._other_optset(rng, name, optset)
+                ops = [{"op": "transfer"}, {"op": "restart"}, {"op": "transfer", "defer": True},
+                       {"op": "options", "set": other}, {"op": "transfer"}]
             return {"kind": "codegen", "roundtrip": True, "model": name, "vals_seed": rng.randrange(1 << 30), "ops": ops,
                     "optset": optset, "mode": "codegen", "avoid": True, "hold_models": False, "layout": rng.choice([0, 1])}
         if config.startswith("crash:"):
@@ -272,6 +293,16 @@ class Engine:
                     "sched_seed": rng.randrange(1 << 62), "cost": [50, 2000]}
         raise ValueError(config)
 
+    @staticmethod
+    def _other_optset(rng, name, optset):
+        """An option set whose compiled functions certainly differ from those of `optset` for this model (so that a
+        mix-up of libraries is visible): with / without parameters replaced by their values, for the model without
+        parameters with / without alias detection."""
+        if rng.random() < 0.2:
+            return rng.choice([i for i in range(len(cp.OPTION_SETS)) if i != optset])
+        a = 2 if name == "Ali" else 5
+        return a if optset != a else 0
+
     def gen_codegen_crash(self, rng):
         """C21 for the compiled-library format: build, something that forces a rebuild (other options, an edit, another
         version), the rebuilding process is killed at a file operation of its choice (between the four library builds,
@@ -281,7 +312,7 @@ class Engine:
         ent = cp.POOL[name]
         keys = ["model:" + f for f in ent["model"]] + ["lib:" + f for f in ent["lib"]]
         opt_a = 0 if rng.random() < 0.5 else rng.randrange(len(cp.OPTION_SETS))
-        opt_b = rng.choice([i for i in range(len(cp.OPTION_SETS)) if i != opt_a])
+        opt_b = self._other_optset(rng, name, opt_a)
         cause = rng.choice(["options", "options", "options", "edit", "version", "none"])
         ops = []
         if cause != "none":
@@ -324,6 +355,8 @@ class Engine:
                 ops.append({"op": "transfer"})
             elif k == "edit":
                 ops.append({"op": "edit", "file": rng.choice(keys), "vals": _vals(rng), "extra": rng.random() < 0.25})
+                if rng.random() < 0.2:
+                    ops[-1]["ws_only"] = True
             elif k == "add":
                 ops.append({"op": "add"})
             elif k == "options":
@@ -338,8 +371,13 @@ class Engine:
         optset0 = rng.randrange(len(cp.OPTION_SETS)) if rng.random() < 0.5 else 0
         if rng.random() < 0.3:
             ops = self._revisit_motif(rng, keys, optset0)
+        for o in ops:
+            if o["op"] == "transfer" and rng.random() < 0.2:
+                o["defer"] = True  # the caller keeps the model and uses it only at the end of the history
         plan = {"kind": "history", "model": name, "vals_seed": rng.randrange(1 << 30), "ops": ops,
-                "optset": optset0, "mode": "cache", "layout": rng.choice([0, 0, 1, 2])}
+                "optset": optset0, "mode": "cache", "layout": rng.choice([0, 0, 1, 2, 3]),
+                # the clock that stamps the files (a file server's, say) against the clock of the process
+                "fs_skew_s": rng.choice([0, 0, 0, 3600, -3600, -2 * 86400, 90])}
         if codegen:
             # compiled shared libraries: every simulated process is a real child interpreter (dlopen state belongs to
             # the OS process).  Short histories: a build costs seconds.
@@ -413,6 +451,16 @@ class Engine:
                 p = copy.deepcopy(plan)
                 p["layout"] = 0
                 yield p
+            if plan.get("fs_skew_s"):
+                p = copy.deepcopy(plan)
+                p["fs_skew_s"] = 0
+                yield p
+            for i, op in enumerate(plan["ops"]):
+                for flag in ("defer", "ws_only"):
+                    if op.get(flag):
+                        p = copy.deepcopy(plan)
+                        del p["ops"][i][flag]
+                        yield p
             for i, op in enumerate(plan["ops"]):
                 if op["op"] == "edit" and op["extra"]:
                     p = copy.deepcopy(plan)
@@ -505,7 +553,9 @@ class Engine:
             if n:
                 counts[k] = counts.get(k, 0) + n
 
+        clock.fs_skew_us = int(plan.get("fs_skew_s", 0) * 1_000_000)
         world = World(sandbox, clock, plan["model"], plan["vals_seed"], layout=plan.get("layout", 0))
+        deferred = []
         optset, mode, label_i = plan["optset"], plan["mode"], 0
         proc = procs.ApiProcess(LABELS[label_i])
         pending = set()  # invalidation causes since the last cache build
@@ -523,6 +573,11 @@ class Engine:
                     key = op["file"]
                     if key not in world.files:
                         continue
+                    if op.get("ws_only"):
+                        # nothing but whitespace changes - at a place where whitespace matters
+                        old = world.files[key]
+                        op = dict(op, vals=dict(old[0], ws=1 - old[0].get("ws", 0)), extra=old[1])
+                        bump("probe:whitespace_only_edit")
                     if world.files[key] == (op["vals"], op["extra"]):
                         continue  # not an edit
                     world.files[key] = (op["vals"], op["extra"])
@@ -533,7 +588,7 @@ class Engine:
                         continue
                     key, _t = sorted(world.late.items())[0]
                     del world.late[key]
-                    world.files[key] = (dict(a=2, b=3, c=4, d=5, e=6), False)
+                    world.files[key] = (dict(a=2, b=3, c=4, d=5, e=6, ws=0), False)
                     world.write(key, world.edit_time_us())
                     pending.add("added_file")
                 elif k == "options":
@@ -571,9 +626,15 @@ class Engine:
                         pending = set()
                         built_in_this_proc = True
                         have_cache = os.path.exists(world.cache_file)
-                    viol = self.judge(world, optset, LABELS[label_i], got, err, shape, "op %d transfer" % opi)
+                    viol = self.judge(world, optset, LABELS[label_i], got, err, shape, "op %d transfer" % opi,
+                                      deferred if op.get("defer") else None)
                     if viol:
                         break
+            for fin in deferred if viol is None else []:
+                bump("probe:model_used_later")
+                viol = fin()
+                if viol:
+                    break
         return self._result(plan, log, clock, counts, {"history_states": sorted(states)}, viol, len(fs.trace))
 
     # ---- C20, compiled shared libraries: one real child interpreter per simulated process ---------------------------------
@@ -587,10 +648,12 @@ class Engine:
         core.set_clock(clock)
         log = core.EventLog()
         counts = {}
+        clock.fs_skew_us = int(plan.get("fs_skew_s", 0) * 1_000_000)
         world = World(sandbox, clock, plan["model"], plan["vals_seed"], layout=plan.get("layout", 0))
         state = {"sandbox": sandbox, "model": plan["model"], "files": world.files, "late": world.late,
                  "optset": plan["optset"], "label_i": 0, "pending": [], "have_cache": False, "clock_us": clock.now_us,
-                 "repo": procs.repo_root(), "hold_models": bool(plan.get("hold_models")), "layout": plan.get("layout", 0)}
+                 "repo": procs.repo_root(), "hold_models": bool(plan.get("hold_models")), "layout": plan.get("layout", 0),
+                 "fs_skew_us": int(plan.get("fs_skew_s", 0) * 1_000_000)}
         # segments: a restart / version operation ends the life of a simulated process
         segs, cur = [], []
         for op in plan["ops"]:
@@ -648,7 +711,9 @@ class Engine:
         """Executed in the child interpreter: the operations of one simulated process."""
         sandbox = job["sandbox"]
         clock = core.SimClock(job["clock_us"])
+        clock.fs_skew_us = job.get("fs_skew_us", 0)
         core.set_clock(clock)
+        deferred = []
         log = []
         counts = {}
 
@@ -692,7 +757,7 @@ class Engine:
                         continue
                     key, _t = sorted(world.late.items())[0]
                     del world.late[key]
-                    world.files[key] = (dict(a=2, b=3, c=4, d=5, e=6), False)
+                    world.files[key] = (dict(a=2, b=3, c=4, d=5, e=6, ws=0), False)
                     world.write(key, world.edit_time_us())
                     pending.add("added_file")
                 elif k == "options":
@@ -735,13 +800,20 @@ class Engine:
                         pending = set()
                         built_in_this_proc = True
                         have_cache = os.path.exists(world.cache_file)
-                    viol = self.judge(world, optset, LABELS[label_i], got, err, shape, "op %d transfer (codegen)" % opi)
+                    viol = self.judge(world, optset, LABELS[label_i], got, err, shape, "op %d transfer (codegen)" % opi,
+                                      deferred if op.get("defer") else None)
                     if is_cached:
                         loaded_in_this_proc = True
                     if job.get("hold_models") and got is not None:
                         held.append(got)
                     if viol:
                         break
+            # models the caller kept without looking at them are used now, at the end of the process's life
+            for fin in deferred if viol is None else []:
+                bump("probe:model_used_later")
+                viol = fin()
+                if viol:
+                    break
         return {"viol": list(viol) if viol else None, "log": log, "counts": counts, "states": sorted(states),
                 "state": {"files": {k: [v[0], v[1]] for k, v in world.files.items()}, "late": world.late, "optset": optset,
                           "label_i": label_i, "pending": sorted(pending), "have_cache": have_cache, "clock_us": clock.now_us,
@@ -752,6 +824,8 @@ class Engine:
         i = plan["index"]
         name = MODELS[i % len(MODELS)]
         optset = (i // len(MODELS)) % len(cp.OPTION_SETS)
+        if plan.get("prior") is not None and optset in (8, 9) and plan["vals_seed"] % 5 < 3:
+            plan = dict(plan, prior=17 - optset)  # the sibling set, which differs in an option the API does not declare
         sandbox = util.new_sandbox()
         clock = core.SimClock()
         core.set_clock(clock)
@@ -763,7 +837,7 @@ class Engine:
             world.files[k] = (world.files[k][0], True)
             world.write(k)
         for key in sorted(world.late):
-            world.files[key] = (dict(a=2, b=3, c=4, d=5, e=6), False)
+            world.files[key] = (dict(a=2, b=3, c=4, d=5, e=6, ws=0), False)
             world.write(key)
         world.late = {}
         viol = None
@@ -833,7 +907,7 @@ class Engine:
     def _crash_world(self, sandbox, clock, model, pre, vals_seed):
         world = World(sandbox, clock, model, vals_seed)
         for key in sorted(world.late):
-            world.files[key] = (dict(a=2, b=3, c=4, d=5, e=6), False)
+            world.files[key] = (dict(a=2, b=3, c=4, d=5, e=6, ws=0), False)
             world.write(key)
         world.late = {}
         if pre:
@@ -977,8 +1051,19 @@ class Engine:
         core.set_clock(clock)
         log = core.EventLog()
         world = self._crash_world(sandbox, clock, model, 0, 12345)
+        two_gen = plan["vals_seed"] % 3 == 0
         with util.capture_pymoca_log():
             procs.ApiProcess(LABELS[0]).transfer_model(world.mdir, model, world.options(0, "cache"))
+            if two_gen:
+                # the damaged file is the second generation of the cache: built, source edited, built again.  Whatever
+                # the first generation left behind must not come back.
+                clock.advance(2_000_000)
+                key = "model:" + next(iter(world.ent["model"]))
+                world.files[key] = (dict(a=9, b=8, c=7, d=6, e=5, ws=0), True)
+                world.write(key, world.edit_time_us())
+                clock.advance(2_000_000)
+                procs.ApiProcess(LABELS[0]).transfer_model(world.mdir, model, world.options(0, "cache"))
+            k = min(k, max(0, os.path.getsize(world.cache_file) - 1))
             mt = os.stat(world.cache_file).st_mtime_ns
             with fsim.REAL_OPEN(world.cache_file, "r+b") as f:
                 f.truncate(k)
@@ -986,7 +1071,7 @@ class Engine:
             log.add(clock.now_us, 0, "truncate", str(k))
             clock.advance(2_000_000)
             got, err = self.call(procs.ApiProcess(LABELS[0]), world, 0, "cache")
-            shape = ["truncated", "empty" if k == 0 else "prefix"]
+            shape = ["truncated", "empty" if k == 0 else "prefix"] + (["second_generation"] if two_gen else [])
             viol = self.judge(world, 0, LABELS[0], got, err, shape,
                               "transfer_model with a cache file cut to its first %d bytes" % k)
             if viol is None:
@@ -995,7 +1080,7 @@ class Engine:
                 viol = self.judge(world, 0, LABELS[0], got, err, shape + ["second_call"], "second transfer_model")
         plan = dict(plan, truncate_to=k)
         return self._result(plan, log, clock, {"fault:truncated_file": 1},
-                            {"crash_points_and_schedules": [canon.digest(("trunc", model, k))]}, viol, 0)
+                            {"crash_points_and_schedules": [canon.digest(("trunc", model, k, two_gen))]}, viol, 0)
 
     # ---- C21: reader/writer and writer/writer races -------------------------------------------------------------
     def run_race(self, plan, replay):
@@ -1007,7 +1092,7 @@ class Engine:
         model = plan["model"]
         world = World(sandbox, clock, model, plan["vals_seed"], layout=plan.get("layout", 0))
         for key in sorted(world.late):
-            world.files[key] = (dict(a=2, b=3, c=4, d=5, e=6), False)
+            world.files[key] = (dict(a=2, b=3, c=4, d=5, e=6, ws=0), False)
             world.write(key)
         world.late = {}
         optsets = plan["optsets"]
